@@ -82,6 +82,21 @@ type countingListener struct {
 	accepted int64
 	closed   int64
 	w        *c19World
+	track    int32 // remember the accepted streams (c19churn): cutAll closes them
+	tmu      sync.Mutex
+	streams  []*countedStream
+}
+
+// cutAll closes, server side, every connection accepted while tracking was on.
+func (l *countingListener) cutAll() int {
+	l.tmu.Lock()
+	ss := l.streams
+	l.streams = nil
+	l.tmu.Unlock()
+	for _, s := range ss {
+		s.Close()
+	}
+	return len(ss)
 }
 
 type countedStream struct {
@@ -131,6 +146,11 @@ func (l *countingListener) Accept() (net.Stream, error) {
 	}
 	atomic.AddInt64(&l.accepted, 1)
 	cs := &countedStream{Stream: s, l: l, gone: make(chan struct{})}
+	if atomic.LoadInt32(&l.track) != 0 {
+		l.tmu.Lock()
+		l.streams = append(l.streams, cs)
+		l.tmu.Unlock()
+	}
 	if l.w != nil && atomic.LoadInt32(&l.w.hold) != 0 {
 		cs.held = make(chan struct{})
 		l.w.heldMu.Lock()
